@@ -1,6 +1,6 @@
 (** C10 — changing representation loses nothing: the obligations, written out in full. *)
 From Coq Require Import List NArith ZArith String.
-From SK Require Import lib.LGraph lib.StrJoin model.C10_Model proof.C10_Proof proof.C10_Hydrogen proof.C10_Routes proof.C10_GmlWrite proof.C10_HRound proof.C10_Routes2 proof.C10_Reindex proof.C10_MolGraph proof.C10_Smart.
+From SK Require Import lib.LGraph lib.StrJoin model.C10_Model proof.C10_Proof proof.C10_Hydrogen proof.C10_Routes proof.C10_GmlWrite proof.C10_HRound proof.C10_Routes2 proof.C10_Reindex proof.C10_MolGraph proof.C10_Smart proof.C10_GmlEH.
 Import ListNotations.
 Local Open Scope Z_scope.
 
@@ -212,3 +212,18 @@ Theorem C10_smart_roundtrip :
     (forall u v, adj I' u v = adj c u v).
 Proof. intros r p eo Hr Hp Hb He. apply smart_roundtrip; auto. apply eo_covers_spec. exact He. Qed.
 Print Assumptions C10_smart_roundtrip.
+
+(** ITS -> GML -> ITS with explicit_hydrogen=True, for an ITS without implicit hydrogens ([hc_free]: what get_rc returns —
+    the hcount key is dropped — so this is the core export of any reaction): the context section then also lists the
+    unchanged bonds (all written with label "-", whatever their order) and h_to_explicit is run on the context, and the
+    rule still reads back to exactly the atoms, charges and (before, after) bond dictionaries of c.  (With implicit
+    hydrogens present the export adds hydrogen atoms on purpose; that case is covered by the correspondence only.) *)
+Theorem C10_gml_roundtrip_explicit_h :
+  forall c : gr, its_ok c = true -> hc_free c = true ->
+    let I' := gml_to_its (its_to_gml c false false true) in
+    (forall n, has_node I' n = has_node c n) /\
+    (forall n a, label c n = Some a ->
+       label I' n = Some (gml_node n (tg_el (tG_of a)) (tg_ch (tG_of a)) (tg_ch (tH_of a)))) /\
+    (forall u v, adj I' u v = adj c u v).
+Proof. exact gml_roundtrip_eh. Qed.
+Print Assumptions C10_gml_roundtrip_explicit_h.
